@@ -186,6 +186,7 @@ class Attack:
             style={ns: rng.choice(['func', 'func', 'catchall', 'class'])
                    for ns in served},
             global_catchall=rng.random() < 0.2,
+            global_class=rng.random() < 0.25,
             serializer=rng.choice(['default', 'default', 'msgpack']),
             async_handlers=rng.random() < 0.3,
             coroutines=rng.random() < 0.7, returns={})
@@ -205,7 +206,7 @@ class Attack:
         w = {'case_index': self.index, 'kind': self.kind,
              'config': {k: self.cfg[k] for k in (
                  'serializer', 'served', 'style', 'async_handlers',
-                 'global_catchall', 'coroutines')},
+                 'global_catchall', 'global_class', 'coroutines')},
              'last_offender_frames': self.ops[-8:]}
         if extra:
             w.update(extra)
